@@ -23,6 +23,17 @@ def c12_jobs(rng, quick):
     for level in range(4):
         for _ in range(120 if quick else 400):
             add("qr", C01.filler(rng, rng.choice([1, 2, 4]), rng.randint(1, 14), 1), (level, 0))
+    # the same content at every level in turn (and back): the level carried must follow the level requested from call to call
+    for c, mode in (("01234567", 1), ("01234567", 0), ("HELLO WORLD", 2), ("HELLO WORLD", 0), ("hello world", 3), ("hello world", 0), ("7" * 60, 1), ("A1" * 40, 2)):
+        for level in (0, 1, 2, 3, 3, 2, 1, 0, 2, 0, 3, 1):
+            add("qr", c, (level, mode))
+    for c in ("abc", "PDF417 level sequence 0123456789"):
+        for lv in list(range(9)) + list(range(8, -1, -1)):
+            add("pdf", c, (lv,))
+    for c in (b"Aztec", b"x" * 30):
+        for pct in (0, 50, 10, 90, 23, 33, 5, 75):
+            add("aztec", c, (pct, 0))
+            add("aztec", c, (pct, 4))
     for lv in range(9):
         for n in ([2, 40, 300, 900] if quick else [0, 2, 10, 40, 100, 300, 600, 900, 1200, 1500, 1700, 1800]):
             add("pdf", "".join(rng.choice("abcdefgh XYZ") for _ in range(n)), (lv,))
